@@ -528,6 +528,8 @@ func shapeValue(s string) interface{} {
 		return ""
 	case "num":
 		return 7.0
+	case "neg":
+		return -3.0
 	case "bool":
 		return true
 	case "obj":
